@@ -154,21 +154,73 @@ def probe_termlist(res, tl, specs, Xtr, X):
 
 
 # ----------------------------------------------------------------------------- cases
+def spline_terms(tl):
+    """every SplineTerm object (not factor / linear) of the term list, marginals of tensor terms included"""
+    from pygam.terms import SplineTerm, FactorTerm
+    out = []
+    for t in tl._terms:
+        for m in (t._terms if t.istensor else [t]):
+            if isinstance(m, SplineTerm) and not isinstance(m, FactorTerm) and not m.istensor:
+                out.append(m)
+    return out
+
+
+def spline_compile_cases(res, tl, specs, user, X0, Xtr):
+    """edge_knots_ of every spline term after the history of compiles: direct probe ((min, max) of the LAST data unless given)
+    and a Coq case (compile_spline of coq/Model/Columns.v)"""
+    cases, meta = [], []
+    for m in spline_terms(tl):
+        f = int(m.feature)
+        cat = m.dtype == 'categorical'
+        hist = ([X0[:, f]] if X0 is not None else []) + [Xtr[:, f]]
+        u = user.get(f)
+        ek = tuple(float(v) for v in m.edge_knots_)
+        lo, hi = float(Xtr[:, f].min()), float(Xtr[:, f].max())
+        want = u if u is not None else ((lo - 0.5, hi + 0.5) if cat else (lo, hi))
+        inp = dict(specs=specs, feature=f, edge_knots_given=u, X_earlier=None if X0 is None else X0.tolist(), X_train=Xtr.tolist())
+        if ek != tuple(want):
+            res.violations.append(dict(what='edge knots of a spline term after compile are not (min, max) of the data it was last compiled on '
+                                            '(or the knots given by the user)', finding=None, input=inp, observed=list(ek), expected=list(want)))
+        cases.append('(CSplineCompile %s %s %s (%s,%s))' % (
+            coq_list([coq_list([dylit(v) for v in h]) for h in hist]),
+            'None' if u is None else '(Some (%s,%s))' % (dylit(u[0]), dylit(u[1])), coq_bool(cat), dylit(ek[0]), dylit(ek[1])))
+        meta.append(dict(inp, kind='SplineTerm.compile'))
+        res.case(('spline-compile', repr(hist), u, cat), nontrivial=True)
+        res.count('spline compile: ' + ('user knots' if u is not None else 'default knots') + (' after earlier compile' if X0 is not None else ''))
+    return cases, meta
+
+
 def make_cases(res, rng, tier):
     count = 160 if tier == 'quick' else 1600
     cases, meta = [], []
     tries = 0
-    while len(cases) < count and tries < count * 3:
+    ncols = 0
+    while ncols < count and tries < count * 3:
         tries += 1
         nf = rng.randint(1, 5)
         factor_feats = tuple(j for j in range(nf) if rng.random() < 0.3)
         specs = gen_terms.gen_termlist(rng, nf, factor_feats, dyadic=True, max_terms=4, max_n=12)
         ntr = rng.randint(6, 14)
         Xtr = gen_terms.gen_X(rng, ntr, nf, factor_feats)
+        # knots given by the user (per feature, so that every spline term on that feature can be recognised), and an earlier
+        # compile of the same term objects on other data (an earlier fit): the columns must depend on the LAST compile only
+        user = {}
+        for j in range(nf):
+            if j not in factor_feats and rng.random() < 0.15:
+                lo_, hi_ = Xtr[:, j].min(), Xtr[:, j].max()
+                user[j] = (float(lo_ - rng.random() * (hi_ - lo_)), float(hi_ + rng.random() * (hi_ - lo_)))
+        for sp in specs:
+            for m in ([sp] if sp['kind'] == 's' else sp.get('margins', []) if sp['kind'] == 'te' else []):
+                if m['kind'] == 's' and m['feature'] in user:
+                    m['edge_knots'] = list(user[m['feature']])
+        X0 = gen_terms.gen_X(rng, rng.randint(4, 12), nf, factor_feats) if rng.random() < 0.4 else None
         try:
             with warnings.catch_warnings():
                 warnings.simplefilter('ignore')
                 tl = gen_terms.build_termlist(specs)
+                if X0 is not None:
+                    tl.compile(X0)
+                    res.count('term list compiled after an earlier compile on other data')
                 tl.compile(Xtr)
         except Exception as e:
             res.violations.append(dict(what='TermList.compile raised on a valid term list', finding=None,
@@ -177,6 +229,9 @@ def make_cases(res, rng, tier):
             continue
         if tl.n_coefs > 400:
             continue
+        sc_cases, sc_meta = spline_compile_cases(res, tl, specs, user, X0, Xtr)
+        cases += sc_cases
+        meta += sc_meta
         X = gen_pred_X(rng, Xtr, factor_feats, rng.randint(3, 7))
         # rows that sit within 1e-12 of a jump of an order-0 / periodic basis: not compared (counted)
         sl = [s for t in tl._terms for s in spline_like(t)]
@@ -211,6 +266,7 @@ def make_cases(res, rng, tier):
         rows = coq_list(['(%s, Some %s)' % (coq_list([dylit(v) for v in X[r]]), coq_list([dylit(v) for v in full[r]]))
                          for r in range(len(X))])
         idxs = coq_list(['(%d, %d)' % ((int(ix[0]) if len(ix) else 0), len(ix)) for ix in idx])
+        ncols += 1
         cases.append('(CCols %s %s%%Q %s %s %d)' % (coq_list([term_coq(t) for t in tl._terms]), qlit(TOL), rows, idxs, int(tl.n_coefs)))
         meta.append(dict(specs=specs, X_train=Xtr.tolist(), X=X.tolist()))
         for s in specs:
@@ -253,7 +309,7 @@ def make_cases(res, rng, tier):
 def run(res):
     rng = common.rng_for(res.seed, PROP)
     res.rule = ('seeded term lists from harness/gen_terms.py (spline ps/cp of order 0..4, categorical splines, linear, factor one-hot / '
-                'dummy, tensor terms with 2..4 marginals of mixed kinds, by-variables, intercept anywhere), compiled on a training X '
+                'dummy, tensor terms with 2..4 marginals of mixed kinds, by-variables, intercept anywhere), compiled on a training X (40% of them after an earlier compile on other data; 15% of the numeric features with user-given edge knots) '
                 'and evaluated on a different prediction-time X (numeric columns reach 40% outside the training range on both sides, '
                 'any sign; boundary values included). A case is one (term list, X); non-trivial unless it only holds an intercept. '
                 'Rows within 1e-12 of a jump of an order-0 / periodic basis are not compared (counted).')
@@ -263,14 +319,14 @@ def run(res):
         failing, errors = common.run_bool_cases(cd, HEADER, cases, 'check_case', shard=max(1, len(cases) // (common.NPROC * 2)))
     for name, out in errors:
         res.obligation('correspondence-file:' + name, False, detail=out, kind='correspondence')
-    res.obligation('correspondence:C16 TermList.build_columns / n_coefs / get_coef_indices / FactorTerm.compile (model = implementation)',
+    res.obligation('correspondence:C16 TermList.build_columns / n_coefs / get_coef_indices / FactorTerm.compile / SplineTerm.compile (model = implementation)',
                    not failing and not errors, detail='failing case indices %s' % failing[:20], kind='correspondence')
     for i in failing:
         res.violations.append(dict(what='model-matrix columns / coefficient indices differ from the model (coq/Model/Columns.v)',
                                    finding=None, input=meta[i], observed='implementation != model', expected='see coq/Model/Columns.v'))
     res.extra['correspondence_cases'] = len(cases)
     res.extra['tolerances'] = {'column entries': '|impl - model| <= 1e-8 * max(1, |model|), exact rational arithmetic in Coq',
-                               'indices, counts, factor levels, edge knots': 'exact',
+                               'indices, counts, factor levels, factor edge knots': 'exact', 'spline edge knots after compile': '1e-12 relative (binary64 rounding of min - 0.5 for categorical splines on non-integer data); exact in the direct probe',
                                'direct probe': 'exact for linear/factor/intercept/indices, 1e-12 relative for products'}
 
 
